@@ -3,13 +3,17 @@ Require Import Value Bytes GenMisc MiscModel GenRegs RegsModel RegsProofs GenAre
 Import ListNotations.
 Local Open Scope Z_scope.
 
-(* C12: the database sweep (regenerated on every run, finite and exhaustive): every register-backed configuration area of
-   every family, revision and sub-feature / memory type is well formed -- register widths multiples of 8, values and
-   reset values in range, bit-fields inside their register, grouped registers exactly as wide as their sub-registers, every
-   register inside the documented binary, seal words inside the binary, computed fields on isolated 32-bit registers and
-   the hidden bit-field named by the database exactly the bits the method fills, segment classes exporting exactly their
-   documented SIZE -- or belongs to one of the recorded classes (alternative widths: C11-F1/F4, C12-F3; a group wider than
-   its sub-registers: C12-F1; a register file longer than the documented size: C12-F8). *)
-Theorem all_areas_swept : forallb (fun A => wf_area_b A || known_class_b A) all_areas = true.
+(* C12: the database sweep (regenerated on every run, finite and exhaustive) over every register-backed configuration area
+   of every family, revision and sub-feature / memory type.
+   (1) wf_area_x_b: EVERY area satisfies every clause of well-formedness -- register widths multiples of 8, values and reset
+       values in range, bit-fields inside their register and pairwise disjoint, sub-registers of one width, every register
+       inside the documented binary, seal words inside the binary, computed fields on isolated 32-bit registers with the
+       hidden bit-field named by the database exactly the bits the method fills -- where only three clauses are relaxed, each
+       only for the register / area that exhibits the recorded defect itself: a top-level register that has alternative
+       widths (C11-F1/F4, C12-F3; the widths must still be valid), a grouped register that is wider than its sub-registers
+       (C12-F1; never narrower), a segment register file longer than the documented SIZE (C12-F8; never shorter).
+       A new defect of any other kind in such an area still fails the sweep.
+   (2) an area that exhibits none of the three defects is well formed without any relaxation (wf_area_b). *)
+Theorem all_areas_swept : forallb (fun A => wf_area_x_b A && (wf_area_b A || known_class_b A)) all_areas = true.
 Proof. exact all_areas_swept_lemma. Qed.
 Print Assumptions all_areas_swept.
